@@ -1,9 +1,14 @@
 (* Executable correspondence + monitor for C07 window cases. *)
-From Verif Require Import Base.CaseCheck Dlq.Window Dlq.Routing.
+From Verif Require Import Base.CaseCheck Dlq.Window Dlq.WindowRle Dlq.Routing.
 
 Inductive wcase :=
 | W1 (size thr : nat) (ops : list bool) (observed : list bool)
 | W2 (size thr : nat) (chunks : list (bool * nat)) (observed : list bool)
+(* large windows / long histories: everything is an N, the history and the observed decisions
+   are run-length encoded (value, count); engine v1 was driven through every single outcome,
+   engine v2 through the same history cut into counted batches (one run = one batch) *)
+| L1 (size thr : N) (runs : list (bool * N)) (observed : list (bool * N))
+| L2 (size thr : N) (chunks : list (bool * N)) (observed : list (bool * N))
 (* routing: records (rejected?, dlq write fails?), observed events, observed (stopped, fatal) *)
 | R1 (size thr : nat) (rs : list rec) (es : list ev) (stopped fatal panicked : bool)
 | R2 (size thr : nat) (batches : list (list rec)) (via_proc : bool) (es : list ev) (stopped fatal panicked : bool).
@@ -31,6 +36,11 @@ Definition chk (c : wcase) : nat :=
   | W2 size t cs obs =>
       code (list_eqb beq (run_v2 (new_win size t) cs) obs)
            (list_eqb beq (run_spec size t init_sp (expand cs)) obs)
+  (* [run_rle] is both engine models (window_rle_is_v1 / window_rle_is_v2) and the property's
+     rule (window_rle_refines_spec), in a form that evaluates at this scale: one comparison
+     decides both bits *)
+  | L1 size t cs obs | L2 size t cs obs =>
+      let ok := rle_same (run_rle size t q0 cs) obs in code ok ok
   (* a panic of the engine is never what the model does and never what the property allows *)
   | R1 size t rs es stopped fatal panicked =>
       let (mes, mtm) := route_v1 (new_win size t) false 0 rs in
